@@ -12,6 +12,8 @@ mod c05;
 mod c08;
 mod proc;
 mod c11;
+mod c16;
+mod cfggen;
 mod unicode_c;
 
 use std::path::Path;
@@ -25,6 +27,7 @@ fn property(id: &str) -> Option<Property> {
         "C05" => c05::property(),
         "C08" => c08::property(),
         "C11" => c11::property(),
+        "C16" => c16::property(),
         _ => return None,
     })
 }
